@@ -70,6 +70,10 @@ def build_sandbox(T, plc):
     os.symlink("real_out", os.path.join(T, "proj", "link"))
     os.symlink(".", os.path.join(T, "proj", "uplink"))
     os.symlink("../shared/code", os.path.join(T, "proj", "srclink"))
+    # links inside the directories FORD copies: to a file and a directory outside the project (absolute), and a dangling one
+    os.symlink(os.path.join(T, "shared", "NOTES.txt"), os.path.join(T, "proj", "media", "notes_link.txt"))
+    os.symlink(os.path.join(T, "shared", "code"), os.path.join(T, "proj", "media", "code_link"))
+    os.symlink(os.path.join(T, "shared", "results.csv"), os.path.join(T, "proj", "pages", "data", "dangling.csv"))
     meta = dict(site.DEFAULT_META)
     meta.update({"output_dir": out.replace("{T}", T), "src_dir": [s[0] for s in srcs], "media_dir": "./media", "css": "./style.css",
                  "favicon": "./fav.png", "mathjax_config": "./mj.js", "page_dir": "./pages", "incl_src": True, "externalize": True,
